@@ -98,7 +98,7 @@ theorem unlockedIsSchedule_execBlock {s : St} (c : Cfg) (h : SchedB s) (hu : Unl
     have e1 := gSched_stable_runTxs hh1 hb hg k hlow d
     have e2 : (execBlock c s b).gSched = (runTxs (beginBlock s (s.height + 1)) b.txs).gSched := by
       unfold execBlock
-      exact (sched_endBlock c (sched_runTxs hh1 hb hg).1 b.guilty b.purged).2.2.1
+      exact (sched_endBlock c (sched_runTxs hh1 hb hg).1 b.guilty b.purged b.deletable).2.2.1
     rw [e2, e1]
     rfl
   by_cases h0 : s.height + 1 ≤ 1
@@ -128,8 +128,7 @@ def decForallSome {α : Type} (o : Option α) (P : α → Prop) [∀ a, Decidabl
 instance (U : List Addr) (s : St) (v d : Addr) (a : Int) : Decidable (StakeGuard U s v d a) :=
   @instDecidableAnd _ _ inferInstance
     (@instDecidableAnd _ _ inferInstance
-      (@instDecidableAnd _ _ (decForallSome (s.prev v) (fun r' => 0 < r'.power ∧ r'.sa = d))
-        (decForallSome (s.vals v) (fun r => r.staking + a < two63))))
+      (decForallSome (s.vals v) (fun r => r.staking + a < two63)))
 
 instance (U : List Addr) (s : St) : (t : Tx) → Decidable (RecGuard U s t)
   | .stake v d a => (inferInstance : Decidable ((txStake s v d a).2 = .ok → StakeGuard U s v d a))
@@ -146,6 +145,7 @@ instance (U : List Addr) (s : St) : (t : Tx) → Decidable (RecGuard U s t)
   | .closeRequest _ => isTrue trivial
   | .setMaturity _ => isTrue trivial
   | .credit _ _ => isTrue trivial
+  | .setIterVals _ => isTrue trivial
 
 instance (s : St) : (t : Tx) → Decidable (MatGuard s t)
   | .setMaturity m => (inferInstance : Decidable (0 ≤ m ∧ (s.height ≤ 1 → 1 ≤ m)))
@@ -158,9 +158,10 @@ instance (s : St) : (t : Tx) → Decidable (MatGuard s t)
   | .allege _ => isTrue trivial
   | .closeRequest _ => isTrue trivial
   | .credit _ _ => isTrue trivial
+  | .setIterVals _ => isTrue trivial
 
 instance (s : St) (b : Block) : Decidable (EndGuard s b) :=
-  (inferInstance : Decidable (b.guilty.Nodup ∧ ∀ v ∈ b.guilty, v ∉ b.purged))
+  (inferInstance : Decidable b.guilty.Nodup)
 
 def decTxsOK (G : St → Tx → Prop) [∀ s t, Decidable (G s t)] :
     (s : St) → (txs : List Tx) → Decidable (TxsOK G s txs)
